@@ -5,7 +5,9 @@ Stages
   smoke        one propagate() call (a crash here is reported under its own key, later stages skip)
   shift        correspondence, executed in Coq on Q: fft = fftshift2 o F, ifft = Finv o ifftshift2
                (F, Finv = numpy's unshifted transforms, oracle values passed as literals), the 1-D
-               branch, ft_coord / ift_coord;  all shapes 2..9 x 2..9 (thorough 2..16) + large ones
+               branch, ft_coord / ift_coord;  all shapes 2..8 x 2..8 (thorough 2..12)
+  shift-labels the same two index permutations observed exactly through integer-labelled spectra on larger
+               shapes (up to 64 x 64)
   transfunc    correspondence, evaluated in Coq on R by Coq-Interval: trans_func values against the
                closed real form of the model (clamp, phase, cfsp power, gradient filter)
   propagate    correspondence on Q: propagate / propagate with a list (zero handling, labels, order,
@@ -17,8 +19,49 @@ import math
 from fractions import Fraction
 
 from harness.lib import boot
-from harness.lib.coqrun import qlit, zlit, blit, listlit, run_mismatch_cases, eval_files, HEADER
+from harness.lib.coqrun import (qlit, zlit, blit, listlit, eval_files, HEADER, parse_eval_blocks,
+                                parse_zlist)
 from harness.lib.ctx import guarded
+
+JOBS = 8            # the machine is shared: never more than 8 coqc at once
+
+
+def run_sharded(tag, requires, exprs, maxbytes=90000, defs=""):
+    """like coqrun.run_mismatch_cases, but shards by literal volume (coqc reads ~15 kB/s of rational
+    literals, so one file per N cases makes the largest shapes dominate the wall time)"""
+    files, cur, size, start, starts = [], [], 0, 0, []
+    for i, e in enumerate(exprs):
+        if cur and size + len(e) > maxbytes:
+            files.append(cur)
+            starts.append(start)
+            cur, size, start = [], 0, i
+        cur.append(e)
+        size += len(e)
+    if cur:
+        files.append(cur)
+        starts.append(start)
+    texts = []
+    for k, part in enumerate(files):
+        text = HEADER + requires + "\n" + defs + "\n"
+        text += "Definition cases : list bool :=\n " + listlit(["\n  (" + e + ")" for e in part]) + ".\n"
+        text += ("Fixpoint bad (i : Z) (l : list bool) : list Z := match l with [] => [] | "
+                 "b :: t => if b then bad (i+1) t else i :: bad (i+1) t end.\n")
+        text += "Eval vm_compute in (bad %d cases).\n" % starts[k]
+        texts.append(("cases_%04d" % k, text))
+    # largest first: better packing of the parallel slots
+    order = sorted(range(len(texts)), key=lambda k: -len(texts[k][1]))
+    res = eval_files(tag, [texts[k] for k in order], jobs=JOBS)
+    mism, errors = [], []
+    for name, rc, out in res:
+        if rc != 0:
+            errors.append("%s: rc=%d %s" % (name, rc, out[-1500:]))
+            continue
+        blocks = parse_eval_blocks(out)
+        if not blocks:
+            errors.append("%s: no Eval output: %s" % (name, out[-500:]))
+            continue
+        mism.extend(parse_zlist(blocks[-1].split(":")[0]))
+    return sorted(mism), errors, len(texts)
 
 REQ = "From HV Require Import Common.Generic Common.Cmp C17.Model.\nOpen Scope Q_scope.\n"
 
@@ -117,15 +160,88 @@ def stage_smoke(ctx):
 
 # --- shift / coordinates (Q) ------------------------------------------------------
 
+LABDEFS = """Definition lgrid (r c : nat) : list (list (Z * Z)) :=
+  map (fun i => map (fun j => (i, j)) (zrange_from 0 c)) (zrange_from 0 r).
+Definition lab_eqb := list_eqb zpairs_eqb.
+"""
+
+
+def lablit(lab):
+    """literal of an r x c grid of integer label pairs"""
+    return "(" + listlit([listlit(["(%d, %d)" % (int(p), int(q)) for (p, q) in row]) for row in lab]) + ")%Z"
+
+
+def round_labels(v, what, ctx, meta):
+    """v: complex array that must be an integer-label grid up to rounding.  Returns the labels, or None
+    (and a disagreement) when a value is further than 1e-6 from a Gaussian integer."""
+    import numpy as np
+    re, im = np.rint(v.real), np.rint(v.imag)
+    err = float(max(np.abs(v.real - re).max(), np.abs(v.imag - im).max()))
+    if not err < 1e-6:
+        odd = any(s % 2 for s in meta["shape"])
+        ctx.disagree("corr:%s:%s" % (what, "odd" if odd else "even"),
+                     "%s of an integer-labelled spectrum is not a permutation of the labels (off by %.3g)" % (what, err),
+                     dict(kind="corr-shift", what=what, err=err, **meta))
+        return None
+    return [[(int(re[i, j]), int(im[i, j])) for j in range(v.shape[1])] for i in range(v.shape[0])]
+
+
+def stage_shift_labels(ctx):
+    """the shift permutation observed black-box on larger shapes: the spectrum is the integer label grid
+    L[i, j] = i + 1j * j, so fft(ifft2(L)) = fftshift2(L) and fft2(ifft(L)) = ifftshift2(L) up to rounding;
+    the rounded labels are compared EXACTLY with the model's fftshift2 / ifftshift2 of the label grid."""
+    import numpy as np
+    from holopy.core.process import fft, ifft
+    rng = ctx.subrng("shiftlab")
+    lo = ctx.n(9, 13)
+    shapes = [(n, n) for n in range(lo, ctx.n(17, 33))] + [(n, n + 1) for n in range(lo, ctx.n(17, 33))]
+    shapes += [(rng.randint(2, 64), rng.randint(2, 64)) for _ in range(ctx.n(12, 150))]
+    shapes += [(64, 64), (2, 64), (63, 2), (33, 32), (17, 64), (63, 63)]
+    exprs, metas = [], []
+    for k, (r, c) in enumerate(shapes):
+        sx, sy = rng.choice(SPACINGS), rng.choice(SPACINGS)
+        L = np.arange(r)[:, None] + 1j * np.arange(c)[None, :]
+        a = np.fft.ifft2(L)
+        meta = dict(case=k, shape=[r, c], spacing=[sx, sy], labelled=True)
+        # oracle hypothesis sampled: F (Finv L) = L
+        ctx.explored += 1
+        if not float(np.abs(np.fft.fft2(a) - L).max()) < 1e-6:
+            ctx.violation("oracle:fft2-ifft2", "numpy fft2(ifft2(L)) != L", dict(kind="oracle", **meta))
+            continue
+        im = mk_image(a, sx, sy, 1.33, 0.66)
+        f = fft(im)
+        lab = round_labels(np.asarray(f.isel(z=0).transpose('m', 'n').values), "fft", ctx, meta)
+        if lab is not None:
+            exprs.append("lab_eqb (fft_m (fun _ => lgrid %d %d) []) %s" % (r, c, lablit(lab)))
+            metas.append(dict(what="fft", **meta))
+        y = f.copy(data=L[None, :, :])
+        b = ifft(y)
+        bv = np.asarray(b.isel(z=0).transpose('x', 'y').values)
+        lab = round_labels(np.fft.fft2(bv), "ifft", ctx, meta)
+        if lab is not None:
+            exprs.append("lab_eqb (ifft_m (fun y => y) (lgrid %d %d)) %s" % (r, c, lablit(lab)))
+            metas.append(dict(what="ifft", **meta))
+        ctx.count("shape-parity:%s%s" % ("o" if r % 2 else "e", "o" if c % 2 else "e"))
+        ctx.count("labelled-shapes")
+        ctx.nontriv(("shape", r, c))
+    mism, errors, _ = run_sharded("C17l", REQ, exprs, defs=LABDEFS)
+    ctx.corr_cases += len(exprs)
+    for e in errors:
+        ctx.violation("corr-eval-error", "model evaluation failed: " + e[:300], dict(kind="coq-error", log=e), nofail=True)
+    for i in mism:
+        m = metas[i]
+        odd = any(s % 2 for s in m["shape"])
+        ctx.disagree("corr:%s:%s" % (m["what"], "odd" if odd else "even"),
+                     "model and implementation disagree on the %s index permutation for shape %s" % (m["what"], m["shape"]),
+                     dict(kind="corr-shift", **m))
+
+
 def stage_shift(ctx):
     import numpy as np
     from holopy.core.process import fft, ifft
     rng = ctx.subrng("shift")
-    hi = ctx.n(9, 16)
+    hi = ctx.n(8, 12)
     shapes = [(r, c) for r in range(2, hi + 1) for c in range(2, hi + 1)]
-    for _ in range(ctx.n(3, 10)):
-        shapes.append((rng.randint(17, 64), rng.randint(17, 64)))
-    shapes += [(64, 64), (2, 64), (63, 2)]
     exprs, metas = [], []
     for k, (r, c) in enumerate(shapes):
         cplx = rng.random() < 0.6
@@ -168,7 +284,7 @@ def stage_shift(ctx):
         if k < 2:
             ctx.sample(dict(shape=[r, c], spacing=[sx, sy], m=[float(v) for v in f.m.values]))
     # 1-D branch (plain numpy vectors)
-    for n in range(1, ctx.n(18, 40)):
+    for n in range(1, ctx.n(14, 40)):
         v = gen_data(1000 + n, (n,), True)
         f1 = np.asarray(fft(v))
         tol = qlit(Fraction(TOL) * Fraction(float(np.abs(v).max()) * n))
@@ -180,7 +296,7 @@ def stage_shift(ctx):
             tol, listlit([clit(z) for z in v]), listlit([clit(z) for z in np.fft.fft(b1)])))
         metas.append(dict(what="ifft1d", shape=[n], data_seed=1000 + n))
         ctx.count("1d")
-    mism, errors, _ = run_mismatch_cases("C17s", REQ, exprs, chunk=40)
+    mism, errors, _ = run_sharded("C17s", REQ, exprs)
     ctx.corr_cases += len(exprs)
     for e in errors:
         ctx.violation("corr-eval-error", "model evaluation failed: " + e[:300], dict(kind="coq-error", log=e), nofail=True)
@@ -217,7 +333,7 @@ def stage_transfunc(ctx):
     from holopy.propagation.convolution_propagation import trans_func
     rng = ctx.subrng("trans")
     goals, metas, tacs = [], [], []
-    ncases = ctx.n(40, 400)
+    ncases = ctx.n(14, 200)
     skipped = 0
     for k in range(ncases):
         big = rng.random() < 0.2
@@ -269,7 +385,7 @@ def stage_transfunc(ctx):
             text += ("Goal True. first [ assert (%s) by (%s); "
                      "idtac \"C17OK %d\" | idtac \"C17BAD %d\" ]. exact I. Qed.\n" % (g, tacs[s + q], s + q, s + q))
         files.append(("tf_%04d" % (s // chunk), text))
-    res = eval_files("C17t", files)
+    res = eval_files("C17t", files, jobs=JOBS)
     ctx.corr_cases += len(goals)
     seen = set()
     for name, rc, out in res:
@@ -302,7 +418,7 @@ def stage_propagate(ctx):
     from holopy.scattering.errors import MissingParameter
     rng = ctx.subrng("prop")
     exprs, metas = [], []
-    for k in range(ctx.n(60, 600)):
+    for k in range(ctx.n(60, 400)):
         r, c = gen_shape(rng, 2, 8 if rng.random() < 0.9 else 20)
         sx, sy = rng.choice(SPACINGS), rng.choice(SPACINGS)
         mi0, wl0 = rng.choice(MEDIA)
@@ -398,7 +514,7 @@ def stage_propagate(ctx):
         metas.append(dict(outcome=got, **meta))
         if k < 2:
             ctx.sample(meta)
-    mism, errors, _ = run_mismatch_cases("C17p", REQ, exprs, chunk=20)
+    mism, errors, _ = run_sharded("C17p", REQ, exprs)
     ctx.corr_cases += len(exprs)
     for e in errors:
         ctx.violation("corr-eval-error", "model evaluation failed: " + e[:300], dict(kind="coq-error", log=e), nofail=True)
@@ -447,6 +563,21 @@ def explore_roundtrip(ctx):
                           dict(coord_err=cerr, dims=list(b.dims), **data))
         if b.name != im.name or set(b.attrs) != set(im.attrs) or b.attrs["medium_index"] != 1.33:
             ctx.violation("ifft:metadata", "ifft(fft(x)) lost name/attrs", data)
+        # the hypotheses the theorems put on the oracle pair, sampled on numpy itself
+        a2 = gen_data(seed + 3, (r, c), True)
+        Fa, Fa2 = np.fft.fft2(a), np.fft.fft2(a2)
+        sc = float(np.abs(a).max() + np.abs(a2).max()) * r * c
+        k1, k2 = complex(0.5, -1.25), complex(-2.0, 0.75)
+        e0 = float((np.abs(a) ** 2).sum())
+        okh = (_relerr(np.fft.ifft2(Fa), a, sc) < 1e-12 and _relerr(np.fft.fft2(np.fft.ifft2(a2)), a2, sc) < 1e-12
+               and _relerr(np.fft.fft2(k1 * a + k2 * a2), k1 * Fa + k2 * Fa2, sc * 4) < 1e-12
+               and abs(float((np.abs(Fa) ** 2).sum()) - r * c * e0) <= 1e-10 * r * c * e0
+               and abs(r * c * float((np.abs(np.fft.ifft2(a2)) ** 2).sum()) - float((np.abs(a2) ** 2).sum()))
+               <= 1e-10 * float((np.abs(a2) ** 2).sum()) and Fa.shape == a.shape)
+        ctx.count("oracle-hypotheses-sampled")
+        if not okh:
+            ctx.violation("oracle:fft2-hypotheses", "numpy fft2/ifft2 violate inverse / linear / Parseval / shape hypotheses "
+                          "for shape %dx%d" % (r, c), data)
     # 1-D
     for n in range(1, ctx.n(40, 130)):
         v = gen_data(n, (n,), True)
@@ -597,7 +728,7 @@ def check_prop_case(ctx, case):
 
 def explore_propagate(ctx):
     rng = ctx.subrng("explore")
-    for k in range(ctx.n(150, 2500)):
+    for k in range(ctx.n(150, 1500)):
         case = gen_prop_case(rng, 12)
         check_prop_case(ctx, case)
     # exhaustive small shapes, one configuration each
@@ -609,39 +740,54 @@ def explore_propagate(ctx):
             check_prop_case(ctx, case)
 
 
+def timed(ctx, tag, fn, *a):
+    import time
+    t = time.time()
+    r = guarded(ctx, tag, fn, *a)
+    ctx.notes.append("stage %s: %.1f s" % (tag, time.time() - t))
+    return r
+
+
 def run(ctx):
-    ctx.rule = ("image shapes 2..64 x 2..64 (all 2..9 x 2..9 exhaustively, thorough 2..16; odd / even / non-square), "
-                "real and complex data, spacings 1/16..1 on both sides of half the medium wavelength incl. exactly "
-                "lam/2 (1 +- 2^-20), distances of both signs from 1/64 to 150, scalar and list distances with zeros at "
-                "every position, cfsp 0..4, gradient filter, metadata stored / overridden / missing; non-trivial = "
-                "distinct (shape) for the transforms, distinct (shape parity, options, regime, sign) for propagation")
+    ctx.rule = ("image shapes 2..64 x 2..64: every shape 2..8 x 2..8 (thorough 2..12) with random real / complex data "
+                "compared in Q at 1e-9, squares and n x (n+1) up to 16 (thorough 32) plus random / extreme shapes up to "
+                "64 x 64 with integer-labelled spectra compared exactly (odd / even / non-square); spacings 1/16..1 on both "
+                "sides of half the medium wavelength incl. exactly lam/2 (1 +- 2^-20); distances of both signs from "
+                "1/64 to 150; scalar and list distances with zeros at every position; cfsp 0..4; gradient filter; "
+                "metadata stored / overridden / missing; non-trivial = distinct (shape) for the transforms, distinct "
+                "(shape parity, options, regime, sign) for propagation")
     ctx.clauses_proved = [
         "ifftshift o fftshift = id and fftshift o ifftshift = id for every length and every 2-D shape (ragged too)",
-        "ifft (fft x) = x and fft (ifft y) = y given the oracle pair F, Finv are mutual inverses",
-        "fftshift moves element i to (i + n/2) mod n",
-        "ift_coord (ft_coord c) = c - c0 for every uniform coordinate list of length >= 2",
-        "G(d1) G(d2) = G(d1+d2), G(0) = 1, G(d) G(-d) = 1 (no evanescent frequency / code's clamp), |G| <= 1",
-        "cfsp: G(d/c)^c = G(d) for every c >= 1",
-        "propagate by 0 = input (shortcut and zero-in-list), d1 then d2 = d1+d2, d then -d = input",
-        "propagate is linear given F, Finv linear", "energy never increases given Parseval for F, Finv",
-        "list of distances = labelled stack of single-distance results", "coordinates kept; metadata = updated metadata",
-        "closed real form evaluated by the check = generic model at R"]
+        "fftshift moves element i to (i + n/2) mod n (1-D and 2-D)",
+        "ifft (fft x) = x and fft (ifft y) = y at every carrier, given the oracle pair F, Finv are mutual inverses",
+        "ift_coord (ft_coord c) = c - c0 for every uniform coordinate list of length >= 2; ft_coord closed form",
+        "G(d1) G(d2) = G(d1+d2), G(d) G(-d) = 1 (code's clamp, or no evanescent frequency), |G| <= 1",
+        "cfsp: G(d/c)^c = G(d) for every c >= 1; gradient filter = G(d) - G(d+f)",
+        "propagate by 0 = input; d1 then d2 = d1+d2; d then -d = input (coarse sampling => no evanescent frequency)",
+        "propagate is linear given a linear oracle pair; energy never increases given Parseval at the two images used",
+        "list of distances = labelled stack of the single-distance results (+ the input once if a zero is present)",
+        "coordinates kept; metadata = update_metadata of the input's; MissingParameter for a list iff for a scalar",
+        "closed real form evaluated by Coq-Interval = generic model at R; Q instance of prop1 / propagate / "
+        "propagate_list / ft_coord / ift_coord = R instance (link theorems)"]
     ctx.clauses_explored = [
-        "numerical agreement of numpy's fft2/ifft2 with the inverse-pair / linearity / Parseval hypotheses (sampled)",
+        "numpy fft2/ifft2 satisfy the inverse-pair / linearity / Parseval / shape hypotheses (sampled every run)",
         "group laws, linearity, energy bound, stack, coordinates and metadata on the implementation (1e-9 relative)"]
     ctx.trusted += [
-        "oracle: numpy.fft.fft2/ifft2/fft/ifft (hypotheses: mutual inverses, linear, Parseval; sampled each run)",
+        "oracle: numpy.fft.fft2/ifft2/fft/ifft (hypotheses: mutual inverses, linear, Parseval, shape-preserving; "
+        "sampled each run)",
         "oracle: numpy sqrt/exp/pi inside trans_func (model evaluated over R by Coq-Interval, 1e-9)",
-        "xarray alignment / broadcasting by dimension name (observed through propagate's results)"]
-    guarded(ctx, "prove", ctx.prove)
+        "xarray alignment / broadcasting by dimension name (observed through propagate's results)",
+        "harness-side rounding of integer-labelled spectra (|value - label| < 1e-6) before the exact comparison"]
+    timed(ctx, "prove", ctx.prove)
     boot.boot()
-    guarded(ctx, "shift", stage_shift, ctx)
-    guarded(ctx, "roundtrip", explore_roundtrip, ctx)
-    guarded(ctx, "transfunc", stage_transfunc, ctx)
-    ok = guarded(ctx, "smoke", stage_smoke, ctx)
+    timed(ctx, "shift", stage_shift, ctx)
+    timed(ctx, "shift-labels", stage_shift_labels, ctx)
+    timed(ctx, "roundtrip", explore_roundtrip, ctx)
+    timed(ctx, "transfunc", stage_transfunc, ctx)
+    ok = timed(ctx, "smoke", stage_smoke, ctx)
     if ok:
-        guarded(ctx, "propagate", stage_propagate, ctx)
-        guarded(ctx, "explore", explore_propagate, ctx)
+        timed(ctx, "propagate", stage_propagate, ctx)
+        timed(ctx, "explore", explore_propagate, ctx)
     else:
         ctx.notes.append("propagate stages skipped: the smoke call failed")
 
